@@ -19,6 +19,7 @@ from typing import List
 
 from dst import golden
 from dst import machine
+from dst import sched
 from dst import seeds
 from dst import simrandom
 from gen import docs as D
@@ -66,6 +67,10 @@ SUSPEND_QUERIES = [
     "$[::-1]", "$..[1::-1]", "$[?@ == $[0]]", "$[?@ != $[-1]]", "$..[?@ == $[0]]", "$..[?@[?@ > $.a]]", "$.a..[?@ < 5, 0]",
     "$[?length(@) > 1][?@ != null]", "$..[?count($..*) > length(@)]", "$[?$.b]", "$..[?@ == $.a || @ == $.b]", "$[?$[0] == @[0]]",
     "$..[?value($..a) == @.a]", "$[?@ < $[1]]",
+    # a container candidate judged against a scalar elsewhere in the root (what differs between two
+    # documents that share the candidate itself)
+    "$[?@.a == $.b]", "$[?@.a != $.c]", "$..[?@.a == $.c]", "$[?@[0] == $.c]", "$..[?@.b < $.d]", "$[?@.a == $.b || @.c == $.d]",
+    "$.a[?@.a == $.b]", "$..[?@[0] != $.d]", "$[?@.b == $.d]", "$.*[?@.a == $.c]", "$..[?@.c == $.a || @.a == $.d]",
 ]
 
 
@@ -104,6 +109,20 @@ def near_equal_family(rng, n: int) -> List[str]:
     hs = list(holes)
     rng.shuffle(hs)
     return [frame.format(x=h) for h in hs[:n]]
+
+
+def graft_spec(rng, base_id: str, base_json: Any) -> Dict[str, Any]:
+    """A same-shaped document with other content that shares 1-3 of the base document's own
+    containers by identity (children of the root preferred: they are met first)."""
+    conts = [loc for loc, _v in _containers(base_json) if loc]
+    top = [loc for loc in conts if len(loc) == 1]
+    share = []
+    if top and rng.random() < 0.8:
+        share.append(list(top[0] if rng.random() < 0.6 else rng.choice(top)))
+    for _ in range(rng.choice((0, 1, 2))):
+        if conts:
+            share.append(list(rng.choice(conts)))
+    return {"graft_of": base_id, "json": perturb(rng, copy.deepcopy(base_json)), "share": share}
 
 
 def perturb(rng, v: Any) -> Any:
@@ -271,12 +290,19 @@ def gen_history(rng, faults: bool) -> Dict[str, Any]:
         if i > 0 and rng.random() < 0.25:
             src = rng.choice(docs)
             shadow.pop(src, None)
-            ops.append({"op": "new_doc", "id": did, "spec": {"wrap": src, "as": rng.choice(("list", "dict"))}})
+            if rng.random() < 0.4 and src == "d0":
+                ops.append({"op": "new_doc", "id": did, "spec": {"member_of": src, "pick": rng.randrange(64)}})
+            else:
+                ops.append({"op": "new_doc", "id": did, "spec": {"wrap": src, "as": rng.choice(("list", "dict"))}})
         elif i > 0 and rng.random() < 0.4:
             base = next(o for o in ops if o["op"] == "new_doc" and "json" in o["spec"])["spec"]["json"]
-            tree = perturb(rng, copy.deepcopy(base))
-            ops.append({"op": "new_doc", "id": did, "spec": {"json": tree}})
-            shadow[did] = copy.deepcopy(tree)
+            if rng.random() < 0.4:
+                ops.append({"op": "new_doc", "id": did, "spec": graft_spec(rng, "d0", base)})
+                shadow.pop("d0", None)  # (the caller does not mutate documents that share objects)
+            else:
+                tree = perturb(rng, copy.deepcopy(base))
+                ops.append({"op": "new_doc", "id": did, "spec": {"json": tree}})
+                shadow[did] = copy.deepcopy(tree)
         else:
             tree = D.random_tree(rng, max_nodes=rng.choice((6, 12, 25, 60)), max_depth=rng.choice((3, 5, 8)))
             ops.append({"op": "new_doc", "id": did, "spec": {"json": tree}})
@@ -339,7 +365,22 @@ def gen_history(rng, faults: bool) -> Dict[str, Any]:
     inject_at = rng.randrange(nops) if ("iter" in enabled and rng.random() < 0.35) else -1
     clash_at = rng.randrange(nops) if rng.random() < 0.3 else -1
     fail_at = rng.randrange(nops) if rng.random() < 0.3 else -1
+    twin_at = rng.randrange(nops) if rng.random() < 0.2 else -1
     for k in range(nops):
+        if k == twin_at:
+            # match() and search() with the SAME pattern, on string-rich data, on the same or
+            # different environments: whatever the two share (a compiled-pattern memo, say) must
+            # not carry one function's reading of the pattern over to the other
+            pat = rng.choice(Q.PATTERNS)
+            did = f"d{len(docs)}"
+            strs = ("a", "b", "&", "|", "~", "ab", "a&b", "aa", "c", "abc", "x", "ba")
+            ops.append({"op": "new_doc", "id": did, "spec": {"json": {"a": [rng.choice(strs) for _ in range(rng.randint(3, 8))], "b": {"a": rng.choice(strs), "b": rng.choice(strs)}, "c": rng.choice(strs)}}})
+            docs.append(did)
+            pair = [f"$..[?match(@, '{pat}')]", f"$..[?search(@, '{pat}')]"]
+            rng.shuffle(pair)
+            for q in pair + ([pair[0]] if rng.random() < 0.5 else []):
+                ops.append({"op": "env_call", "env": rng.choice(envs), "q": q, "doc": did, "entry": rng.choice(("find", "find", "finditer"))})
+            continue
         if k == fail_at and len(envs) < 7:
             # a call that FAILS half-way on an environment (a user function raising, or the
             # recursion limit), then lazy and eager calls of a root-referencing query on that
@@ -481,7 +522,23 @@ def execute(history: Dict[str, Any], sseed: int) -> machine.Machine:
     sim = simrandom.SimRandom(sseed)
     simrandom.install(sim)
     try:
-        return machine.run_history(history)
+        m = machine.Machine(history.get("knobs"))
+
+        def body() -> None:
+            for op in history["ops"]:
+                m.step(op)
+            m.final_recheck()
+
+        # on a simulated thread: a call that blocks for ever inside the library ends the
+        # history as a deadlock violation instead of hanging the harness
+        err = sched.run_guarded(body)
+        if isinstance(err, sched.Deadlock):
+            m._tl.label = "history"
+            m._violate("deadlock", f"a call into the library blocks for ever: {err}")
+        elif err is not None:
+            raise err
+        m.close()
+        return m
     finally:
         simrandom.uninstall()
 
